@@ -489,6 +489,19 @@ DOMAIN = (
     "paths with non-ASCII, '%', '?', '#', space, newline, plus defaults/alias values with doubled slashes")
 
 
+def explained(check):
+    """True for the failure classes described in FINDINGS_C12.md (consequences of C03 findings)"""
+    return any(t in check for t in ("rejecting_converter", "nonstrict_branch_extra_slash", "run_of_3plus_slashes"))
+
+
+SAMPLES = [
+    {"check": "redirect", "input": {"rules": ["/<path:v0>/"], "strict_slashes": True, "script_name": "/app", "scheme": "https",
+                                    "subdomain": "sub", "query": "a=1&b=%20x", "path": "//evil.com/a"}},
+    {"check": "redirect", "input": {"rules": ["/d/ defaults v1=1", "/d/<int:v1>"], "redirect_defaults": True, "path": "/d//1"}},
+    {"check": "redirect", "input": {"rules": ["/c/<string:v1>/", "/al/<string:v1>/ alias"], "path": "/al/é", "query": {"q": "é&=#?"}}},
+]
+
+
 def run(tier, seed, reg=None):
     common.assert_tree()
     t0 = time.time()
@@ -505,12 +518,7 @@ def run(tier, seed, reg=None):
             acc.redirects += a.redirects
             for k, v in a.kinds.items():
                 acc.kinds[k] = acc.kinds.get(k, 0) + v
-    failures = []
-    order = sorted(acc.fails)
-    per = 5 if len(order) <= 5 else 3
-    for check in order:
-        for size, inp, obs, exp, _sig in acc.fails[check][:per]:
-            failures.append({"check": check, "input": common._j(inp), "observed": str(obs)[:500], "expected": "; ".join(exp)[:300]})
+    failures = c03.select_failures(acc.fails, explained)
     dom = DOMAIN
     if tier == "thorough":
         dom += ("; thorough adds all pairs again under 6 environments each with redirect_defaults on/off and 2000 seeded random "
@@ -519,7 +527,7 @@ def run(tier, seed, reg=None):
             "rule": "one evaluation = one MapAdapter.match(path) on one (map, settings, environment); distinct_nontrivial = "
                     "evaluations that raised RequestRedirect (each gets the host/syntax/query/converge/same checks, following up "
                     "to 5 hops)",
-            "domain": dom, "exhaustive": sub == 1 and tier == "quick", "samples": [], "failures": failures[:25], "failure_counts": acc.fail_counts,
+            "domain": dom, "exhaustive": sub == 1 and tier == "quick", "samples": SAMPLES, "failures": failures[:25], "failure_counts": acc.fail_counts,
             "maps": acc.maps, "redirect_chains_by_kind": acc.kinds, "wall_s": round(time.time() - t0, 2)}
 
 
